@@ -214,7 +214,7 @@ package tcp
 // putOptions returns them resliced to full capacity).
 //@ func getOptions props C05 C04 C06 C03
 //@   trusted
-//@   ensures len(result) == maxOptionSize && cap(result) == maxOptionSize && fresh(result)
+//@   ensures len(result) == maxOptionSize && cap(result) == maxOptionSize && fresh(result) && off(result) == 0
 
 //@ func putOptions props C05 C04 C06 C03
 //@   trusted
